@@ -1,7 +1,7 @@
 (* C13 - the do_build model obeys the selection rule, for every argument configuration, every
    file-system world and every (abstract) section content. *)
 From PV Require Import Base.Prelude Spec.BuildSpec Model.Build Model.BuildInst Instances.HoldsC13
-  Generated.T_files_build Generated.T_files_file Generated.T_build_do.
+  Generated.T_file_proto Generated.T_build_do.
 
 (* ---------- pins: the regenerated shape facts the model relies on ---------- *)
 (* the tuple of the section loop names each of the six sections exactly once - in ANY order *)
